@@ -6,7 +6,7 @@ on-stack from finished; the walk's stamp is never the unvisited value; both dire
 dependency are recorded; unload guarded by empty reverse-dependencies and iterated to a
 fixpoint.  Not decided: the order of events over all DAGs."""
 from ..facts import AnalysisBroken
-from ..model import sx, walk, is_var, is_field, const_of, vars_in, root_var, same, on_path
+from ..model import sx, walk, is_var, is_field, const_of, vars_in, root_var, same, on_path, rel
 from .. import rules
 
 UNIT = 'src/module.c'
@@ -326,6 +326,91 @@ def both_directions(P, R):
     R.floor('C20.MPT.3', 3)
 
 
+def edge_forms(P, R, rule='C20.TAB.2'):
+    """What the walk and the unload rounds read must be what the declarations wrote.  (a) Every function through which a
+    module declares edges records each of them in a `depends` list (the post-init walk follows nothing else), and a
+    reverse entry (A in B's rdepends) is only written next to its forward entry (B in A's depends) or for an element
+    read out of A's depends.  (b) The mark the walk stores on a module is the very value its on-path test compares
+    against.  (c) A loop over a module's edge list does not clear or shrink that list while it runs."""
+    unit = P.need_fn('module_load_list').unit
+    n = 0
+
+    def ident(f, e):
+        """which module an expression denotes: the variable a vector hangs off, the variable whose ->name is taken,
+        or the module looked up by a name variable"""
+        if not isinstance(e, dict):
+            return None
+        for x in walk(e):
+            if x.get('k') == 'mem' and x.get('field') in ('depends', 'rdepends', 'name') and is_var(x.get('base')):
+                return x['base']['name']
+        if is_var(e):
+            nm = e['name']
+            for s in f.sites():
+                ev = s.ev
+                val = ev.get('init') if ev['k'] == 'decl' else ev.get('rhs') if ev['k'] == 'store' and ev.get('op') == '=' else None
+                tgt = ev.get('var') if ev['k'] == 'decl' else (ev['lhs']['name'] if ev['k'] == 'store' and is_var(ev.get('lhs')) else None)
+                if tgt and isinstance(val, dict) and val.get('k') == 'callref' and any(is_var(y, nm) for a in val.get('args', []) for y in walk(a)):
+                    return tgt
+        return None
+    for f in P.unit_fns(unit):
+        aps = [s for s in f.calls('const_string_vector_append') if len(s.ev['args']) == 2 and any(on_path(s.ev['args'][0], fl) for fl in ('depends', 'rdepends'))]
+        if not aps:
+            continue
+        fw = [(ident(f, s.ev['args'][0]), ident(f, s.ev['args'][1]), s) for s in aps if on_path(s.ev['args'][0], 'depends')]
+        rv = [(ident(f, s.ev['args'][0]), ident(f, s.ev['args'][1]), s) for s in aps if on_path(s.ev['args'][0], 'rdepends')]
+        variadic = any(p.get('t', '').startswith('const char') for p in f.param_info) and any(s.ev.get('callee') in ('__builtin_va_start', 'va_start', '__builtin_va_arg') or 'va_' in (s.ev.get('callee') or '') for s in f.calls())
+        declares = variadic or f.name in ('module_depends', 'module_antidepends')
+        if declares:
+            n += 1
+            R.ob(rule, bool(fw), aps[0], '%s records every declared edge in a depends list' % f.name, key='edge-forward:%s' % f.name)
+        for owner, val, s in rv:
+            paired = any(o2 == val and v2 == owner for o2, v2, _ in fw)
+            # ... or the owner was looked up from an element of val's depends list
+            derived = False
+            for t in f.sites():
+                ev = t.ev
+                v0 = ev.get('init') if ev['k'] == 'decl' else ev.get('rhs') if ev['k'] == 'store' and ev.get('op') == '=' else None
+                tgt = ev.get('var') if ev['k'] == 'decl' else (ev['lhs']['name'] if ev['k'] == 'store' and is_var(ev.get('lhs')) else None)
+                if tgt == owner and isinstance(v0, dict) and any(x.get('k') == 'mem' and x.get('field') == 'depends' and is_var(x.get('base'), val) for x in walk(v0)):
+                    derived = True
+            n += 1
+            R.ob(rule, paired or derived, s, 'in %s the reverse entry (%s listed in %s\'s rdepends) stands next to its forward entry or mirrors an element of %s\'s depends' % (f.name, val, owner, val),
+                 key='edge-reverse:%s' % f.name)
+    # (b) stored mark == compared mark
+    dfs = P.need_fn('module_dfs')
+    marks = [s for s in dfs.stores() if s.ev['k'] == 'store' and is_field(s.ev.get('lhs'), 'visited') and s.ev.get('op') == '=']
+    cmps = []
+    for b in dfs.blocks:
+        for e in dfs.out[b]:
+            r = e.rel()
+            if r and is_field(r[0], 'visited') and r[1] == '==' and const_of(r[2]) is None:
+                cmps.append(r)
+    for s in marks:
+        n += 1
+        R.ob(rule, bool(cmps) and all(sx(s.ev.get('rhs')) == sx(r[2]) for r in cmps), s, 'the mark stored on a module (%s) is the value the on-path test compares with (%s)' % (sx(s.ev.get('rhs')), sorted({sx(r[2]) for r in cmps})),
+             key='mark-is-stamp')
+    # (c) no shrinking of the list being walked
+    for f in P.unit_fns(unit):
+        for b in f.blocks:
+            c = f.term_cond(b)
+            if c is None or b not in f.reach([e.dst for e in f.out[b]]):
+                continue
+            r = rel(c, True)
+            if not (r and isinstance(r[2], dict) and r[2].get('k') == 'mem' and r[2].get('field') == 'used' and r[1] == '<'):
+                continue
+            vec = sx(r[2].get('base'))
+            body = set()
+            for e in f.out[b]:
+                if e.label == 'true':
+                    body = {x for x in f.reach([e.dst], cut_blocks={b}) if b in f.reach([x])}
+            bad = [t for x in body for t in f.block_sites(x) if t.ev['k'] == 'call' and any(w in (t.ev.get('callee') or '') for w in ('_clear', '_remove'))
+                   and t.ev['args'] and sx(t.ev['args'][0]).lstrip('&') == vec]
+            n += 1
+            R.ob(rule, not bad, bad[0] if bad else P.relloc((f.blocks[b].get('term') or {}).get('loc')) if (f.blocks[b].get('term') or {}).get('loc') else f,
+                 'the loop of %s over %s does not clear or shrink that list while it walks it' % (f.name, vec), key='walk-stable:%s:%s' % (f.name, vec))
+    R.floor(rule, 6, 'edge records, the walk mark, list walks')
+
+
 def unload(P, R):
     ca = P.need_fn('module_close_all')
     rems = [s for s in ca.calls('set_remove')]
@@ -438,4 +523,5 @@ def run(P, R, tier):
     unload(P, R)
     reverse_list_removal(P, R)
     loading_context(P, R)
+    edge_forms(P, R)
     return EXPLANATION, ASSUMPTIONS
